@@ -193,16 +193,13 @@ Proof.
   unfold parse_text, is_set. destruct (to_ps t) as [pt|].
   - destruct (PS.parse_string isp0 true true pt s); simpl; intros H; inversion H. now rewrite of_pval_set.
   - destruct t; simpl; try discriminate.
-    + destruct (str_eqb name duration_name).
-      * destruct k; try discriminate. destruct bits as [|p]; try discriminate.
-        repeat (destruct p; try discriminate).
-        destruct (parse_duration s); simpl; intros H; inversion H; reflexivity.
-      * destruct k; try discriminate.
-        -- destruct (parse_float bits s); simpl; intros H; inversion H; reflexivity.
-        -- unfold parse_complex.
-           destruct (fst (complex_parts bits s)); simpl; try discriminate.
-           destruct (snd (complex_parts bits s)); simpl; try discriminate.
-           intros H; inversion H; reflexivity.
+    + destruct (str_eqb name duration_name); [discriminate|].
+      destruct k; try discriminate.
+      * destruct (parse_float bits s); simpl; intros H; inversion H; reflexivity.
+      * unfold parse_complex.
+        destruct (fst (complex_parts bits s)); simpl; try discriminate.
+        destruct (snd (complex_parts bits s)); simpl; try discriminate.
+        intros H; inversion H; reflexivity.
     + destruct (string_slice isp0 s); simpl; try discriminate.
       destruct (map_out (parse_extra t) a); simpl; intros H; inversion H; reflexivity.
 Qed.
